@@ -1918,18 +1918,21 @@ Proof. reflexivity. Qed.
 
 Theorem match_iff_flat_base :
   forall b rs p,
+    b <> [] ->
     wf_tree rs = true -> wf_routes rs = true -> starts_with_slash p = true ->
     known_class_coarse (Some b) rs p = false ->
     matches (Some b) rs p = flat_any (Some b) rs p /\ match_route (Some b) rs p <> MPanic.
 Proof.
-  intros b rs p Hwt Hwf Hsl Hk.
+  intros b rs p Hbne Hwt Hwf Hsl Hk.
   unfold known_class_coarse in Hk.
   apply orb_false_iff in Hk. destruct Hk as [Hk Hds].
   apply orb_false_iff in Hk. destruct Hk as [Hk Hopt].
   apply orb_false_iff in Hk. destruct Hk as [Hkb Hss].
   unfold k_boundary in Hkb. unfold k_slash_static in Hss.
   apply orb_false_iff in Hss. destruct Hss as [Hss Hbase].
-  unfold base_untame in Hbase.
+  assert (Hbu : base_untame b = negb (starts_with_slash b) || ends_with_slash b || has_dslash b)
+    by (destruct b; [congruence|reflexivity]).
+  rewrite Hbu in Hbase. clear Hbu.
   apply orb_false_iff in Hbase. destruct Hbase as [Hbase Hbd].
   apply orb_false_iff in Hbase. destruct Hbase as [Hbs Hbe]. apply negb_false_iff in Hbs.
   unfold k_dslash in Hds.
@@ -2017,11 +2020,12 @@ Qed.
 
 Theorem match_iff_flat_except_known :
   forall base rs p,
+    base <> Some [] ->
     wf_tree rs = true -> wf_routes rs = true -> starts_with_slash p = true ->
     known_class_coarse base rs p = false ->
     matches base rs p = flat_any base rs p /\ match_route base rs p <> MPanic.
 Proof.
-  intros [b|] rs p; [apply match_iff_flat_base|apply match_iff_flat_nobase].
+  intros [b|] rs p Hne; [apply match_iff_flat_base; congruence|apply match_iff_flat_nobase].
 Qed.
 
 Example match_iff_flat_base_nontrivial :
